@@ -85,6 +85,9 @@ def gen_obligations(suite, c, bits=None):
     if fn.args.vararg or fn.args.kwarg:
         if not c.types.get("**"):
             raise Unsupported("*args/**kwargs in %s" % c.name)
+        for a in (fn.args.vararg, fn.args.kwarg):
+            if a is not None:
+                st.env[a.arg] = ex.opaque()
     old = st.copy()
     ex.old_state = old
     pre = ex.spec_eval(c.requires, st, None, None)
